@@ -97,6 +97,15 @@ func judgeParsed(c Case, w *vkit.W) {
 			return
 		}
 		format = func(buf []byte) ([]byte, error) { return uu.DefaultFormatter(buf, v, uu.Format(c.Flags)) }
+		// the statement's last sentence, for a value that came out of the parser a moment ago (whatever its text looked like)
+		plain, perr := uu.DefaultFormatter(nil, v, 0)
+		urn, uerr := uu.DefaultFormatter(nil, v, uu.FormatURN)
+		if perr == nil && uerr == nil && string(urn) != "urn:uuid:"+string(plain) {
+			w.Fail(c, "urn-rendering", fmt.Sprintf("ID parsed from %q: URN rendering %q, plain rendering %q", text, urn, plain))
+		}
+		if got, want := v.URN(), "urn:uuid:"+v.String(); got != want {
+			w.Fail(c, "urn-rendering", fmt.Sprintf("ID parsed from %q: URN() = %q, String() = %q", text, got, v.String()))
+		}
 	default:
 		panic("unknown pkg " + c.Pkg)
 	}
@@ -366,7 +375,7 @@ func TestCheck(t *testing.T) {
 			"roman": {"MCMXCIV", "mdclxvi", "IIII", "MMMMMMMMMMMMMMMMMMMMCDXLIV", ""},
 			"sem":   {"v1.2.3-alpha+build", "1.2.3-alpha.1+build.5", "10.20.30-rc.1", "1.0.0+21AF26D3----117B344092BD", "v18446744073709551615.0.0-x-y-z.--", "0.0.0"},
 			"size":  {"1 000 kB", "20KiB", "18446744073709551615", "7 EiB", "1_024"},
-			"uu":    {"123e4567-e89b-12d3-a456-426614174000", "urn:uuid:123E4567-E89B-12D3-A456-426614174000", "ffffffff-ffff-ffff-ffff-ffffffffffff"},
+			"uu":    {"123e4567-e89b-12d3-a456-426614174000", "123E4567-E89B-12D3-A456-426614174000", "123e4567-E89B-12d3-A456-426614174AbC", "urn:uuid:123E4567-E89B-12D3-A456-426614174000", "ffffffff-ffff-ffff-ffff-ffffffffffff"},
 		}
 		for _, pkg := range []string{"date", "roman", "sem", "size", "uu"} {
 			pkg := pkg
